@@ -16,7 +16,8 @@ RULE = ("Population histories (add with component subset of {A,B,F} - F has fals
         "unaffected); get_random_agent over 60*k draws returns only candidates, every candidate at least once, None iff no "
         "candidate; shuffle returns a permutation of exactly the candidates; iteration order, len and membership unchanged by "
         "all three. Non-trivial: template of >= 2 types and/or a tag (incl. 0) selecting a proper non-empty subset. Distinct = "
-        "digest of the case.")
+        "digest of the case."
+        " Added in rounds 19-24: the model may be marked complete; an operation 'use' (loops over the environment left early, len, lookups by id).")
 ASSUMPTIONS = ["reachability uses N = 60*k draws: the probability that a fair pick misses one of k <= 8 candidates is < 1e-24, and the "
                "outcome is a deterministic function of the generated model seed"]
 
